@@ -6,6 +6,7 @@ PADDER = {"cls": "torrentfile.recheck.HashChecker.Padder", "fields": {"length": 
 def register(reg):
     register_hashchecker(reg)
     register_hashchecker_next(reg)
+    register_hashchecker_iter(reg)
     C = reg.contract
 
     # ------------------------------------------------------------------ Padder.__next__  (C04 / C16: absent data = zeros)
@@ -75,6 +76,13 @@ HC_FIELDS = {"count": "int", "length": "int", "piece_length": "int", "pieces": "
              "paths": "list[str]", "fileinfo": "dict", "piece_layers": "dict", "root_hash": "any"}
 
 
+FH_WF = ["self.hasher.piece_length == self.piece_length", "self.hasher.amount * 16384 == self.piece_length",
+         "self.hasher.amount >= 1 and is_pow2(self.hasher.amount)", "file_open(self.hasher.current) or self.hasher.end",
+         "not self.hasher.hybrid"]
+PAD_WF = ["self.hasher.piece_length == self.piece_length", "self.hasher.length == self.length",
+          "self.hasher.pad == sha256(zeros(self.piece_length))"]
+
+
 def register_hashchecker(reg):
     C = reg.contract
     hc_file = {"cls": "torrentfile.recheck.HashChecker", "fields": dict(HC_FIELDS, hasher=FH)}
@@ -84,13 +92,11 @@ def register_hashchecker(reg):
       params={"self": hc_file},
       variants=[{"self": hc_file, "_v": "const:'file on disk'"}, {"self": hc_pad, "_v": "const:'file absent'"}],
       requires=["self.piece_length >= 16384 and is_pow2(self.piece_length)", "self.count >= 0 and self.length >= 0"],
-      variant_requires=[
-          ["self.hasher.piece_length == self.piece_length", "self.hasher.amount * 16384 == self.piece_length",
-           "self.hasher.amount >= 1 and is_pow2(self.hasher.amount)", "file_open(self.hasher.current) or self.hasher.end",
-           "not self.hasher.hybrid"],
-          ["self.hasher.piece_length == self.piece_length", "self.hasher.length == self.length",
-           "self.hasher.pad == sha256(zeros(self.piece_length))"],
-      ],
+      variant_requires=[FH_WF, PAD_WF],
+      modifies=["self.count", "self.length", "self.hasher"],
+      shapes_out={"self.hasher": [{"variants": [0], "type": FH, "wf": FH_WF},
+                                  {"variants": [0], "type": PADDER, "wf": PAD_WF},
+                                  {"variants": [1], "type": PADDER, "wf": PAD_WF}]},
       returns="tuple[any,bytes,str,int]",
       ensures=[
           (["C16", "C04"], "one_tuple_for_the_next_piece_of_the_current_file",
@@ -123,10 +129,19 @@ def register_hashchecker_next(reg):
                 ("env", "fileinfo_wellformed(self.fileinfo, self.index + 1, self.piece_layers, self.piece_length)"),
                 ("env", "path_is_str(self.paths, self.index + 1)")],
       returns="bool",
+      modifies=["self.index", "self.current", "self.length", "self.root_hash", "self.pieces", "self.count", "self.hasher"],
+      shapes_out={"self.hasher": [{"when": "result and fs_exists(self.paths[self.index])", "type": FH, "wf": FH_WF},
+                                  {"when": "result and not fs_exists(self.paths[self.index])", "type": PADDER, "wf": PAD_WF},
+                                  {"when": "not result", "type": None}]},
       ensures=[
           (["C04", "C16"], "moves_to_the_next_listed_file", "self.index == old(self.index) + 1"),
           (["C04", "C16"], "true_iff_there_is_one",
            "result == (is_none(old(self.current)) or old(self.index) + 1 < len(self.paths))"),
+          (["C04", "C16"], "recorded_hashes_in_spec_form",
+           "implies(result, self.pieces == recorded_hashes(self.fileinfo, self.piece_layers, self.index, self.piece_length))"),
+          (["C04", "C16"], "the_file_moved_to_is_a_listed_one",
+           "implies(result, 0 <= self.index < len(self.paths) and (self.index in self.fileinfo) and "
+           "self.length == recorded_length(self.fileinfo, self.index))"),
           (["C16", "C05"], "takes_length_and_recorded_hashes_of_that_file",
            "implies(result, self.current == self.paths[self.index] and self.length == self.fileinfo[self.index]['length'] and "
            "self.count == 0 and self.pieces == (self.piece_layers[self.fileinfo[self.index]['pieces root']] "
@@ -136,3 +151,67 @@ def register_hashchecker_next(reg):
               "KeyError": {}, "IsADirectoryError": {}},
       notes="the hasher installed is FileHasher(path) when the path exists and Padder(length) otherwise (exercised natively; "
             "object construction is not part of this contract)")
+
+
+RECORDED = "recorded_hashes(self.fileinfo, self.piece_layers, self.index, self.piece_length)"
+
+
+def register_hashchecker_iter(reg):
+    C = reg.contract
+    base = dict(HC_FIELDS, current="any", pieces="any", root_hash="any")
+    hc_fresh = {"cls": "torrentfile.recheck.HashChecker", "fields": dict(base, hasher="any")}
+    hc_file = {"cls": "torrentfile.recheck.HashChecker", "fields": dict(base, hasher=FH)}
+    hc_pad = {"cls": "torrentfile.recheck.HashChecker", "fields": dict(base, hasher=PADDER)}
+    MID = ["0 <= self.index < len(self.paths)", "self.current == self.paths[self.index]", "self.count >= 0 and self.length >= 0",
+           f"self.pieces == {RECORDED}"]
+    NOTHING_LEFT = "(recorded_length(self.fileinfo, i) == 0 or len(recorded_hashes(self.fileinfo, self.piece_layers, i, self.piece_length)) == 0)"
+    ENTRY_DONE = "(old(self.length) == 0 or old(self.count) * 32 >= len(old(self.pieces)))"
+    C("torrentfile.recheck.HashChecker.__next__",
+      props=["C04", "C05", "C16"],
+      params={"self": hc_fresh},
+      variants=[{"self": hc_fresh, "_v": "const:'first call'"}, {"self": hc_file, "_v": "const:'file on disk'"},
+                {"self": hc_pad, "_v": "const:'file absent'"}],
+      shards=3, shard_by="variant",
+      ghost={"i": "int"},
+      requires=["self.piece_length >= 16384 and is_pow2(self.piece_length)"],
+      variant_requires=[["is_none(self.current)", "self.index == -1"], MID + FH_WF, MID + PAD_WF],
+      modifies=["self.index", "self.current", "self.length", "self.root_hash", "self.pieces", "self.count", "self.hasher"],
+      returns="tuple[any,bytes,str,int]",
+      ensures=[
+          (["C04", "C16"], "reports_a_piece_of_a_listed_file_not_before_the_current_one",
+           "max(old(self.index), 0) <= self.index < len(self.paths) and result[2] == self.paths[self.index]"),
+          (["C04", "C16"], "the_piece_reported_is_the_next_unreported_piece_of_that_file",
+           f"self.count >= 1 and result[1] == {RECORDED}[32 * (self.count - 1):32 * self.count] and "
+           "result[3] == min(self.length + result[3], self.piece_length) and self.length >= 0"),
+          (["C04", "C16"], "same_file_continues_with_its_next_piece",
+           "implies(self.index == old(self.index), self.count == old(self.count) + 1 and self.length == old(self.length) - result[3])"),
+          (["C04", "C16"], "a_new_file_starts_with_its_first_piece",
+           "implies(self.index != old(self.index), self.count == 1 and self.length == recorded_length(self.fileinfo, self.index) - result[3])"),
+          (["C04", "C16"], "the_file_left_behind_had_nothing_left_to_report",
+           f"implies(self.index != old(self.index) and old(self.index) >= 0, {ENTRY_DONE})"),
+          (["C04", "C16"], "files_passed_over_had_nothing_to_report",
+           f"implies(old(self.index) < i < self.index, {NOTHING_LEFT})"),
+      ],
+      raises={"StopIteration": {"ensures": [
+          (["C04", "C16"], "stops_only_when_every_listed_file_was_gone_through",
+           f"self.index >= len(self.paths) and implies(old(self.index) >= 0, {ENTRY_DONE}) and "
+           f"implies(old(self.index) < i < len(self.paths), {NOTHING_LEFT})")]},
+          "IndexError": {"ensures": [("C04", "only_for_an_empty_path_list", "len(self.paths) == 0")]},
+          "KeyError": {}, "IsADirectoryError": {}},
+      raises_props=["C04"],
+      loops={0: {"capture": {"idx0": "self.index"},
+                 "modifies": ["self.index", "self.current", "self.length", "self.root_hash", "self.pieces", "self.count", "self.hasher"],
+                 "shapes": {"self.hasher": [{"type": FH, "wf": FH_WF}, {"type": PADDER, "wf": PAD_WF}]},
+                 "invariant": [(f"mid{j}", m) for j, m in enumerate(MID)] + [
+                     ("not_before_the_entry_file", "self.index >= max(old(self.index), 0)"),
+                     ("entry_file_untouched_or_done",
+                      f"(self.index == old(self.index) and self.count == old(self.count) and self.length == old(self.length)) or "
+                      f"(self.index > old(self.index) and self.count == 0 and self.length == recorded_length(self.fileinfo, self.index) and "
+                      f"implies(old(self.index) >= 0, {ENTRY_DONE}))"),
+                     ("files_passed_over_had_nothing_to_report", f"implies(old(self.index) < i < self.index, {NOTHING_LEFT})"),
+                 ],
+                 "decreases": "len(self.paths) - self.index"}},
+      notes="per call: the tuple returned is the next unreported piece in (file, piece) order -- nothing is skipped except files with "
+            "nothing to report, and iteration stops only after the last listed file; coverage of the whole payload follows by "
+            "induction over the calls (hand argument).  Composition of the next_file / process_current contracts; the hasher object "
+            "is FileHasher or Padder (shape clauses)")
